@@ -59,6 +59,20 @@ fn tables() -> Vec<(&'static str, Table)> {
         ("greek", mk(&[("+", D(0)), ("·", B(2, true)), ("λ", U), ("λμ", U), ("Σ", U), ("Ω", C), ("ω", C), ("√", U)])),
         ("digits-in-names", mk(&[("+", D(0)), ("*", B(2, true)), ("f", U), ("f1", U), ("f12", U), ("f_1", U), ("k9", C)])),
     ]
+    .into_iter()
+    .flat_map(|(name, t)| {
+        // the order of the operator table must not matter: every small table also runs reversed
+        // (same data type, same number of operators, other positions)
+        if t.len() <= 8 {
+            let mut r = t.clone();
+            r.reverse();
+            let rname: &'static str = Box::leak(format!("{name}-reversed").into_boxed_str());
+            vec![(name, t), (rname, r)]
+        } else {
+            vec![(name, t)]
+        }
+    })
+    .collect()
 }
 
 fn exmex_paths(text: &str, number_matcher: bool) -> Vec<(&'static str, R)> {
